@@ -6,7 +6,7 @@ sys.path.insert(0, os.path.join(ROOT, "checklib"))
 import props
 
 PARTIAL = {
-    "C01": "CBOR: whole domain `fullTy` proved (roundtrip_full_cbor). JSON: transport for every type, equality with the token-level round trip for typed targets when it succeeds, full statement for plain kinds; JSON into untyped slots (numeric re-typing) by tie against normV",
+    "C01": "none in the model: whole domain `fullTy` proved for CBOR (roundtrip_full_cbor) and for what JSON can carry (roundtrip_full_json); outside it (untagged structs in untyped slots; tagged types in untyped slots under JSON) the tie compares with the model",
     "C03": "none since C03Float (FloatTextOk proved); float text routines themselves are model code validated against strconv by the tie",
     "C06": "allocation proved for the model's make sites, measured on the real code; Go-runtime panics observed by the tie only",
     "C11": "independence (no shared storage) cannot be expressed over immutable model values: tie only (mutation probing); equality proved on `fullTy`",
